@@ -42,7 +42,28 @@ pub fn parse(input: &str) -> (SourceFile, Vec<LocatedSyntaxError>) {
 	};
 	let mut errors = parse.errors;
 	duplicate_parameter_names(&file, &mut errors);
+	spaced_visibility_colons(&file, &mut errors);
 	(file, errors)
+}
+
+/// `::` and `:::` are single tokens of the grammar, the lexer only knows `:` and the evaluator's
+/// parsers reject `a : : 1`. The event parser sees no token positions, so check the tree
+fn spaced_visibility_colons(file: &SourceFile, errors: &mut Vec<LocatedSyntaxError>) {
+	use nodes::Visibility;
+	for visibility in file.syntax().descendants().filter_map(Visibility::cast) {
+		if visibility
+			.syntax()
+			.children_with_tokens()
+			.any(|c| Trivia::can_cast(c.kind()))
+		{
+			errors.push(LocatedSyntaxError {
+				error: SyntaxError::Custom {
+					error: "field visibility is a single token".to_owned(),
+				},
+				range: visibility.syntax().text_range(),
+			});
+		}
+	}
 }
 
 /// `function(a, a) a` is a static error for the evaluator's parsers: the names declared by one
